@@ -57,7 +57,7 @@ func storePalette() []any {
 	// with the other must really store the other (identity is observable by later mutation)
 	m2 := map[string]any{"x": 1}
 	return []any{nil, 0, 1, -7, "s", "", true, math.NaN(), 3.5, m, []any{1, "two"}, []int{1, 2}, sPair{A: 1, B: []int{2}}, p, (*Tok)(nil), map[string]int(nil), int64(1) << 40, uint8(200), func() {},
-		m2, []any{1, "two"}, []int{1, 2}, 0.0, math.Copysign(0, -1), &Tok{Tag: "p"}, map[string]any{"x": map[string]any{"y": 2}}}
+		m2, []any{1, "two"}, []int{1, 2}, 0.0, math.Copysign(0, -1), &Tok{Tag: "p"}, map[string]any{"x": map[string]any{"y": 2}}, map[string]any{"z": 5}, map[string]any{"x": map[string]any{"w": 3}}}
 }
 
 // sameValue: identity for reference kinds, NaN-aware equality for floats, DeepEqual otherwise.
